@@ -240,6 +240,16 @@ func scripted(ctx *common.Ctx, em *emitter) error {
 	one(&upd{Kind: "MailboxUpdated", MboxRID: recoveryRID, Name: "Y"}, "invalid")
 	one(&upd{Kind: "MessageMailboxesUpdated", MsgRID: "r2", Mboxes: []string{"b1", recoveryRID}}, "invalid")
 	one(&upd{Kind: "MessagesCreated", Items: []mcItem{{RID: "r30", Marker: w.marker(), Mboxes: []string{recoveryRID}}}}, "invalid")
+	// the recovery mailbox named by its INTERNAL id: its remote id cannot be changed; afterwards the updates a connector
+	// would send for the new remote id find nothing (a deletion of an unknown mailbox restates, a rename of one is outside
+	// "valid"), and the reserved remote id cannot be given to another mailbox
+	one(&upd{Kind: "MailboxIDChanged", MboxIID: recoveryIID, MboxRID: "rec-new"}, "invalid")
+	one(&upd{Kind: "MailboxUpdated", MboxRID: "rec-new", Name: "Renamed"}, "invalid")
+	one(&upd{Kind: "MailboxDeleted", MboxRID: "rec-new"}, "restate")
+	one(&upd{Kind: "MailboxIDChanged", MboxIID: recoveryIID, MboxRID: recoveryRID}, "invalid")
+	if b := w.snap().mbByRID("b1"); b != nil {
+		one(&upd{Kind: "MailboxIDChanged", MboxIID: b.IID, MboxRID: recoveryRID}, "invalid")
+	}
 	one(&upd{Kind: "MessageFlagsUpdated", MsgRID: "nope", Flags: []string{`\Seen`}}, "invalid")
 	one(&upd{Kind: "MessageMailboxesUpdated", MsgRID: "nope", Mboxes: []string{"b1"}}, "invalid")
 	one(&upd{Kind: "MessagesCreated", Items: []mcItem{{RID: "r31", Marker: w.marker(), Mboxes: []string{"b1", "nope"}}}}, "invalid")
@@ -405,7 +415,7 @@ func randomEpisode(ctx *common.Ctx, em *emitter, epi int, steps int) error {
 		sn := w.snap()
 		var mbs, msgs []string
 		for _, mb := range sn.Mb {
-			if mb.RID != recoveryRID {
+			if !isRecovery(mb) {
 				mbs = append(mbs, mb.RID)
 			}
 		}
@@ -418,6 +428,9 @@ func randomEpisode(ctx *common.Ctx, em *emitter, epi int, steps int) error {
 		pickMb := func() string {
 			if len(mbs) == 0 || rng.Chance(0.08) {
 				return "nope-mb"
+			}
+			if rng.Chance(0.05) {
+				return recoveryRID // MailboxCreated / MailboxDeleted / MailboxUpdated / MailboxIDChanged aimed at the protected mailbox
 			}
 			return mbs[rng.Pick(len(mbs))]
 		}
@@ -516,6 +529,9 @@ func randomEpisode(ctx *common.Ctx, em *emitter, epi int, steps int) error {
 				if rng.Chance(0.15) {
 					u.MboxRID = pickMb()
 				}
+				if rng.Chance(0.12) {
+					u.MboxIID = recoveryIID // the protected mailbox named by its internal id
+				}
 			}
 		case k < 48:
 			n := 1 + rng.Pick(4)
@@ -579,7 +595,7 @@ func randomEpisode(ctx *common.Ctx, em *emitter, epi int, steps int) error {
 func restating(rng *common.Rng, sn *dbSnap, w *world, goneMsg, goneMb []string) *upd {
 	var mbs []*dbMb
 	for _, mb := range sn.Mb {
-		if mb.RID != recoveryRID {
+		if !isRecovery(mb) {
 			mbs = append(mbs, mb)
 		}
 	}
@@ -587,7 +603,7 @@ func restating(rng *common.Rng, sn *dbSnap, w *world, goneMsg, goneMb []string) 
 	for _, m := range sn.Ms {
 		inRecovery := false
 		for _, mb := range sn.mailboxesOf(m.IID) {
-			if mb.RID == recoveryRID {
+			if isRecovery(mb) {
 				inRecovery = true
 			}
 		}
@@ -690,13 +706,35 @@ func bigBatch(ctx *common.Ctx, em *emitter) error {
 			return err
 		}
 	}
+	// flags of the new messages go into the flag table as one flat list of (message, flag) pairs, chunked by db.ChunkLimit
+	// values = ChunkLimit/2 pairs: batches with exactly 500 and 501 pairs (the first chunk is full / one pair spills into a
+	// second statement), then the big batch with more than 2*ChunkLimit pairs (three of four messages carry three flags).
+	// Every message must exist afterwards with exactly its flags (the view comparison of step).
+	three := []string{`\Seen`, `\Flagged`, "kw1"}
+	for _, b := range []struct {
+		pfx   string
+		n     int
+		flags []string
+	}{{"fa", 250, three[:2]}, {"fb", 167, three}} {
+		fu := &upd{Kind: "MessagesCreated"}
+		for i := 0; i < b.n; i++ {
+			fu.Items = append(fu.Items, mcItem{RID: fmt.Sprintf("%s%d", b.pfx, i), Marker: fmt.Sprintf("m%s-%d", b.pfx, i), Flags: b.flags, Mboxes: []string{"big2"}})
+		}
+		if _, err := w.step(fu, "fresh"); err != nil {
+			return err
+		}
+	}
 	u := &upd{Kind: "MessagesCreated"}
 	for i := 0; i < 1001; i++ {
 		mbs := []string{"big"}
 		if i%250 == 0 || i >= 999 {
 			mbs = append(mbs, "big2")
 		}
-		u.Items = append(u.Items, mcItem{RID: fmt.Sprintf("big%d", i), Marker: fmt.Sprintf("mbig-%d", i), Mboxes: mbs})
+		it := mcItem{RID: fmt.Sprintf("big%d", i), Marker: fmt.Sprintf("mbig-%d", i), Mboxes: mbs}
+		if i%4 != 0 {
+			it.Flags = three
+		}
+		u.Items = append(u.Items, it)
 	}
 	_, err = w.withDup(u, "fresh")
 	return err
